@@ -100,3 +100,18 @@ pub(crate) fn xor_in_place_model<const LENGTH: usize>(
 pub(crate) fn eq32(a: &[u8; 32], b: &[u8; 32]) -> bool {
     w128(a, 0) == w128(b, 0) && w128(a, 1) == w128(b, 1)
 }
+
+// ---- Display stubs: error *messages* are built with `e.to_string()` in the dependency's readers
+// (`Deserializer::read_array`), which drags the whole formatting machinery (padding, char search) into every read.
+#[allow(dead_code)]
+pub(crate) fn io_error_display_nop(_e: &std::io::Error, _f: &mut std::fmt::Formatter<'_>) -> std::fmt::Result {
+    Ok(())
+}
+#[allow(dead_code)]
+pub(crate) fn try_from_int_display_nop(_e: &std::num::TryFromIntError, _f: &mut std::fmt::Formatter<'_>) -> std::fmt::Result {
+    Ok(())
+}
+#[allow(dead_code)]
+pub(crate) fn from_utf8_display_nop(_e: &std::string::FromUtf8Error, _f: &mut std::fmt::Formatter<'_>) -> std::fmt::Result {
+    Ok(())
+}
